@@ -2,9 +2,16 @@
 CRYPTO = "cryptographic primitives are assumptions (hypotheses of theorems), never axioms"
 CFG = {
   'ready': True,
-  'gens': ['gen_consts.py', 'gen_timing.py'],
+  'gens': ['gen_consts.py', 'gen_timing.py', 'gen_forward.py', 'gen_htlc_tables.py', 'gen_forceclose.py'],
   'props_module': 'LdkModel.Props.C08',
-  'models': ['c08'],
+  # the CLTV admission checks must hold for EVERY next-hop kind (real channel, phantom, intercept, unknown SCID): the per-hop
+  # admission model regenerated from can_forward_htlc_should_intercept & co. and its theorems (hop_offer_bounded: "… leaves
+  # >= MIN_CLTV_EXPIRY_DELTA and respects the height margins") live in the C02 vertical and are C08 obligations as well;
+  # c02hop drives them on real nodes with hand-built onions
+  'extra_props_modules': ['LdkModel.Props.C02'],
+  'models': ['c08', 'c02hop'],
+  'model_bins': {'c02hop': 'c02'},
+  'model_drivers': {'c02hop': 'drv_c02'},
   'level_text': 'Lean 4 theorems over decision predicates translated from the Rust source on every run (every height/expiry/delta, by omega over regenerated constants), plus a differential run of the real functions against the model driver on boundary sweeps',
   'level_note': 'Trusted: Lean kernel; axioms {propext, Classical.choice, Quot.sound}; the translators tools/gen_consts.py and gen_timing.py; the finite correspondence sample. Race theorems assume the library\'s stated confirmation bounds. End-to-end broadcast heights in a running node are validated by scenario models, not proved.',
   'modelled': 'decision predicates are TRANSLATED from the Rust bodies each run (gen_timing.py); race timelines (Model/Timing.lean) are hand-written compositions of them',
